@@ -19,6 +19,11 @@ from vmc.ref import c18_catalogue as CAT
 
 _BY_NAME = {}
 
+# Offsets into the deterministic value tables are an explicit, completely enumerated axis of the lattice (NOT chosen by VERIF_SEED):
+# some allocation paths are reached only for particular data (e.g. the restart branch of active_set_nnls after a singular solve), so
+# letting the seed rotate the tables would make the set of reachable paths - and of violation signatures - depend on the seed.
+OFFSETS = {"quick": [0], "thorough": [0, 1, 7]}
+
 
 def entries():
     if not _BY_NAME:
@@ -90,11 +95,13 @@ class C18(Check):
     rule = ("complete product: catalogued array-returning entry point x option/initialisation variant (allocation path; thorough tier adds the "
             "full cross product of the option axes of the main algorithms) x input dtype "
             "(float32, float64, complex128 where the variant supports complex) x tensor-algebra backend (core, einsum where the result "
-            "depends on tenalg); a case is (entry, variant, dtype, tenalg); it is non-trivial iff the real call returned at least one "
-            "non-empty floating/complex numpy array whose dtype was compared with the input's (distinct by (entry, variant, dtype, tenalg))")
+            "depends on tenalg) x value-table offset (quick {0}, thorough {0,1,7}); a case is (entry, variant, dtype, tenalg, offset); it is non-trivial iff the real call returned at least one "
+            "non-empty floating/complex numpy array whose dtype was compared with the input's (distinct by (entry, variant, dtype, tenalg, offset))")
     assumptions = [
         "numpy's ndarray.dtype attribute is trusted; comparison is exact dtype equality (no tolerance is involved in this property)",
-        "inputs come from the deterministic tables of vmc/values.py cast to the case dtype; complex inputs have non-zero imaginary parts",
+        "inputs come from the deterministic tables of vmc/values.py cast to the case dtype; complex inputs have non-zero imaginary parts; "
+        "the table offset is an enumerated axis of the case, VERIF_SEED is deliberately ignored (data-dependent branches would otherwise make "
+        "the set of reachable allocation paths depend on the seed)",
         "numeric options are python scalars; masks and user initialisations are given in the dtype of the data",
         "exempt by role: error lists/losses; integer/bool arrays (index/count outputs); python scalars; leverage_score_dist must be float64; "
         "for complex input, roles that are mathematically real (singular values, norms, eigenvalues, CP weights) may be float64",
@@ -117,9 +124,10 @@ class C18(Check):
             cx = e["cx"] if var["cx"] is None else var["cx"]
             dts = ["float64", "float32"] + (["complex128"] if cx else [])
             tas = ["core", "einsum"] if e["ta"] else ["core"]
-            for ta in tas:
-                for dt in dts:
-                    yield {"entry": e["name"], "variant": var["label"], "dtype": dt, "tenalg": ta, "seed": seed}
+            for off in OFFSETS[tier]:
+                for ta in tas:
+                    for dt in dts:
+                        yield {"entry": e["name"], "variant": var["label"], "dtype": dt, "tenalg": ta, "off": off}
 
     # ------------------------------------------------------------------------------
     def run_case(self, case, ctx):
@@ -129,9 +137,9 @@ class C18(Check):
         e = entries()[case["entry"]]
         var = next(x for x in e["variants"] if x["label"] == case["variant"])
         dt = np.dtype(case["dtype"])
-        d = CAT.Dat(dt, case.get("seed", 0))
+        d = CAT.Dat(dt, case.get("off", 0))
         name, label, ta = e["name"], var["label"], case["tenalg"]
-        tag = f"{name}[{label}] dtype={dt} tenalg={ta}"
+        tag = f"{name}[{label}] dtype={dt} tenalg={ta} table-offset={d.off}"
 
         prev_ta = tenalg.get_backend()
         prev_be = tl.get_backend()
@@ -188,6 +196,8 @@ class C18(Check):
             elif dt.kind == "c" and real_ok_role(path):
                 want_ok = got in (np.dtype("complex128"), np.dtype("float64"))
                 want = "complex128 or float64 (real-valued role)"
+                if got == np.float64:
+                    ctx.count(f"complex-input:real-valued-role-returned-as-float64:{name}:{role_clean}")
             else:
                 want_ok = got == dt
                 want = str(dt)
@@ -202,7 +212,7 @@ class C18(Check):
                               f"{tag}: returned {path or 'result'} has dtype {got} (shape {getattr(obj, 'shape', ())}), expected {want}; "
                               f"all arrays: {seen[:12]}")
         if checked:
-            ctx.nontriv([name, label, str(dt), ta])
+            ctx.nontriv([name, label, str(dt), ta, d.off])
         else:
             ctx.count("no-floating-array-returned")
         ctx.outcome(("preserved" if not bad else "changed") + f":{dt}" if checked else f"nothing-to-compare:{dt}")
